@@ -154,6 +154,37 @@ def run(tier, seed, rng):
         if 'ok' not in o or o.get('packed') != {'ok': c['raw']}:
             failures.append(dict(kind='oracle', sig='ref-position', what='after a referenced packet whose last field is placed before the end of another of its fields, the following fields are not serialized where they are parsed',
                                  classes=nsrc, cls=c['cls'], raw=c['raw'], offset=0, observed=o, required=dict(packed=c['raw'])))
+    # ---- an EMPTY field placed inside bytes written before it, then a field placed further on: on output the later field must land
+    # where it was read (an empty chunk in the middle must not move the cursor the fill is measured from); every position of the
+    # empty field, lengths 0..2, targets 8..11, directly and nested at offset 1 (start offset 0: see finding D10 for other offsets)
+    zsrc, zcases, zmeta = "", [], []
+    for K in (8, 9, 11):
+        zsrc += (f"class ZA{K}(Packet):\n    o = Int(1)\n    n = Int(1)\n    body = Data(6)\n    e = Data(n).at(o)\n    t = Int(2).at({K})\n"
+                 f"class ZE{K}(Packet):\n    o = Int(1)\n    n = Int(1)\n    body = Data(6)\n    e = Em().at(o)\n    t = Int(2).at({K}, 'begins')\n"
+                 f"class ZS{K}(Packet):\n    o = Int(1)\n    n = Int(1)\n    body = Data(6)\n    e = Data(0).shift(-3)\n    t = Int(2).at({K})\n"
+                 f"class ZO{K}(Packet):\n    tag = Int(1)\n    z = Ref(ZA{K})\n    u = Int(1)\n")
+        for o in range(0, K + 3):
+            for n in (0, 1, 2):
+                raw = bytes([o, n]) + b'ABCDEF' + b'.' * (K - 8) + b'\xbe\xef'
+                inside = n == 0 or (o >= 8 and o + n <= K)
+                if not inside:
+                    continue
+                raw = raw + b'.' * max(0, o + n - len(raw))
+                for cls in ([f"ZA{K}", f"ZO{K}"] + ([f"ZE{K}", f"ZS{K}"] if n == 0 else [])):
+                    r = (b'\x07' + raw + b'\x21') if cls.startswith('ZO') else raw
+                    zcases.append(dict(cls=cls, op='roundtrip', raw=r.hex(), offset=0))
+                    zmeta.append((cls, o, n, K, r))
+    zres = run_impl(os.path.join(VERIF, 'harness', 'impl_pkt.py'), dict(header=HEADER_PY, blocks=[dict(name='zero', src=zsrc)], modname='c10z', cases=zcases))
+    dist['empty_field_inside_earlier_bytes'] = len(zcases)
+    for (cls, o, n, K, r), oo in zip(zmeta, zres['outcomes']):
+        if 'ok' not in oo:
+            continue            # e.g. the nested variant when the following field would re-read: not this family's subject
+        want = r.hex()
+        pk = oo.get('packed')
+        dist['empty_field_parsed'] = dist.get('empty_field_parsed', 0) + 1
+        if pk != {'ok': want}:
+            failures.append(dict(kind='oracle', sig='empty-inside', what=f"an empty field placed at {o} inside earlier bytes, then a field placed at {K}: the output {pk} does not hold the fields where they were read ({want})",
+                                 classes=zsrc, cls=cls, raw=want, offset=0, observed=oo, required=dict(packed=want)))
     csize = 800
     files = [(f"cases_{i}", HEADER_COQ + "Definition cases : list case := [\n" + ";\n".join(p) + "\n].\nEval vm_compute in (bad 0 cases).\n")
              for i, p in enumerate(shard(lines, csize))]
